@@ -49,7 +49,7 @@ const topEvery = 6      // one type in topEvery is a top-level slice / map targe
 const maxVariants = 128 // fault variants executed per case
 
 func (check) Rule() string {
-	return "one case = (type, plan). Type: top-level struct of 2-6 fields, depth <= 3, fields of kind int int8 int32 int64 uint uint8 uint32 uint64 float32 float64 string time.Duration, the library leaves Port / Level / DefLevel / DefBad (Validate with value or pointer receiver, InitDefaults giving a valid or an invalid value) and the library leaves UNum / ULevel / UPort / UStr that receive their value through go-ucfg's Unpacker / IntUnpacker / UintUnpacker / StringUnpacker interface (ULevel, UPort also with Validate), DefNaN (a float64 whose InitDefaults sets NaN), pointers to those (one in six through a second pointer, **T; one pointer field in ten is a *regexp.Regexp with required / nonzero), slices / arrays / maps of those (one in four to six held behind a pointer: *[]T, *[N]T, *map[string]T, also *[]struct), structs whose only field is an inline map (with or without required / nonzero; held by value, by pointer or as element, never inline themselves), structs by value, by pointer, inline, in slices, arrays and maps (by value and by pointer), interface{} fields (holding a number, a string or a pointer to struct), ignored fields, and the library structs WithDefaults / WithBadDefaults (InitDefaults), Range / Pair (cross-field Validate, value / pointer receiver), URange (ConfigUnpacker + cross-field Validate), UTagged (ConfigUnpacker whose field carries validator tags), Node (a struct with a pointer to its own type: one pre-filled Node in three has its Next chain closed into a ring of 1-3 valid nodes, i.e. a CYCLIC pre-filled default), Hidden (unexported + ignored field); one map of scalars in five is DefPorts / DefPortsBad and one map of structs in five DefLimits / DefLimitsBad - map TYPES whose InitDefaults inserts the entry \"dflt\" (valid resp. breaking the element's Validate / min tag) whenever the map's holder is unpacked, into a nil, empty or pre-filled target, with no, an empty or a set configuration naming other keys and / or \"dflt\" itself; one map of scalars in five has the key type Key (a string with Validate); one interface{} field in three sits behind a pointer (*interface{}, holding a number, a string, a pointer to struct, half of the time a pointer to Range / Pair / URange); pre-filled numbers in interface{} fields sit behind a pointer one time in three (iface(*int)); collision-free `config` names and 0-2 validators per field among required, nonzero, positive, min=N, max=N (durations: 5s or 5) that apply to the kind (one min / max in eight of a 64 bit integer field is a bound at the edge of the kind: 2^63-1, 2^63, 2^64-2, -2^63+1, 2^63-2); every second type declares, field by field, a second independent set of validators under the struct tag `" + altTag + "` next to `validate` (WithDefaults / WithBadDefaults always do); one type per " + strconv.Itoa(typeShare) + " consecutive cases. Half of the slice fields and one in eight struct / pointer-to-struct / map-of-struct fields carry a merge option in the config tag (append, prepend, replace, merge; inherited by the fields below); one slice field in five is the library type Small ([]int with its own Validate). One type in " + strconv.Itoa(topEvery) + " is a slice or map that is ITSELF the Unpack target (Unpack(&[]T{...}) / Unpack(&map[string]T{...}), configuration a list / object, no variables). Validator tag name: Unpack is called without ValidatorTag, with ValidatorTag(validate) or with ValidatorTag(" + altTag + ") (half of the cases of a two-tag type, one in eight of the others, where then no tag validator is in force at all); values, faults and oracle follow the validators declared under the name in force. In half of the cases of a two-tag type (a quarter of the others) the same type and input are first unpacked under the OTHER tag name (a sequence of two Unpack calls with different options in one process); of that first call only panics and accepted numbers outside min / max / positive or rejected by Validate() are judged. Plan: one plan in three passes AppendValues / PrependValues / ReplaceValues / ReplaceArrValues to Unpack; every position independently takes its value from the configuration (spelled as int/int64/uint64/float/string, durations as text or seconds, 1 in 6 through ${v.xN} under PathSep(.)+VarExp), from the pre-filled target, from InitDefaults, or stays zero/nil; slices mix configured, merged and untouched pre-filled elements (index by index without merge mode; separate configured and pre-filled elements under append / prepend / replace), maps mix configured, pre-filled and merged entries; a slice or map without configured elements is absent, null, or present as an empty list / object, over a nil or a filled pre-fill (also shorter lists than the pre-fill). One configured scalar element / entry in ten is an explicit null (only where the zero value it becomes is valid, nothing pre-filled sits at the position and the collection field has no validators). Valid values are interior or exactly on a bound (bounds are inclusive); float32 / float64 / DefNaN positions also take NaN, +-Inf, -0 and subnormal numbers wherever the validators in force admit them (NaN: only without min / max / positive; -0: not under nonzero / required), as Go float, as text (NaN nan +Inf inf -Inf -infinity -0 5e-324) or through a variable, from the configuration, as pre-filled default or from InitDefaults; one min / max / positive fault in five on a float position is NaN, one nonzero fault in two is -0; one valid number in eight and one min / max / positive fault in three takes a value at the edge of the kind's range (MinInt / MaxInt of the width, +-2^7 2^8 2^31 2^32 2^53 2^63 and their neighbours, MaxUint64, +-1e18 +-1e300 1e-300, +-1e30 for float32, +-2562047h), spelled as int64 / uint64 / float / decimal string or through a variable; values against an edge bound are drawn from the neighbours of the bound and compared exactly. Base plan: Unpack must return nil and the oracle walk must be clean. Then every (position, validator, source) fault the plan admits (<= " + strconv.Itoa(maxVariants) + " per case) is injected alone: bad value from the configuration / through a variable / as pre-filled default / by leaving the field absent / by InitDefaults / as explicit null / as a pre-filled element or entry that survives the merge while the configuration gives the collection as EMPTY list or object (default+empty-config) / a `required` or `nonzero` collection given as empty list or object over a nil, an empty non-nil or (replace) a dropped pre-fill / one element of a Small too big for its Validate / an explicit null as element or entry of a type whose Validate rejects the zero value (config-null) / a non-nil EMPTY pre-filled slice or map under required / nonzero with the setting absent (pre-empty; for pointer-to-collection fields: a pointer to an empty collection) / a pre-filled pointer (also **T, iface(*T), *interface{}) to a ZERO number, an empty string or empty regular expression under required with the setting absent or an explicit null (default, default+config-null) / zero or empty from the configuration under required / the entry of a map type's InitDefaults left unrepaired by the configuration (initdefaults at the entry or at its tagged field, the rest of the map as drawn) / a configured or pre-filled entry under a key the key type's Validate rejects (config-key, default-key) / any value of a *time.Duration under a min / max in seconds no duration reaches (min=1e10, min=inf, max=-1e10), while max=1e10, max=inf, max=9223372036.854775807, min=-1e10 restrict nothing; Unpack must fail and name the field. A fault variant is executed only if the model of Unpack for these shapes agrees that exactly this position is invalid. Non-trivial = the type has at least one validator-bearing position; distinct = distinct (type, sources of all leaves, fault)."
+	return "one case = (type, plan). Type: top-level struct of 2-6 fields, depth <= 3, fields of kind int int8 int32 int64 uint uint8 uint32 uint64 float32 float64 string time.Duration, the library leaves Port / Level / DefLevel / DefBad (Validate with value or pointer receiver, InitDefaults giving a valid or an invalid value) and the library leaves UNum / ULevel / UPort / UStr that receive their value through go-ucfg's Unpacker / IntUnpacker / UintUnpacker / StringUnpacker interface (ULevel, UPort also with Validate), DefNaN (a float64 whose InitDefaults sets NaN), pointers to those (one in six through a second pointer, **T; one pointer field in ten is a *regexp.Regexp with required / nonzero), slices / arrays / maps of those (one in four to six held behind a pointer: *[]T, *[N]T, *map[string]T, also *[]struct), structs whose only field is an inline map (with or without required / nonzero; held by value, by pointer or as element, never inline themselves), structs by value, by pointer, inline, in slices, arrays and maps (by value and by pointer), interface{} fields (holding a number, a string or a pointer to struct), ignored fields, and the library structs WithDefaults / WithBadDefaults (InitDefaults), Range / Pair (cross-field Validate, value / pointer receiver), URange (ConfigUnpacker + cross-field Validate), UTagged (ConfigUnpacker whose field carries validator tags), Node (a struct with a pointer to its own type: one pre-filled Node in three has its Next chain closed into a ring of 1-3 valid nodes, i.e. a CYCLIC pre-filled default), Hidden (unexported + ignored field); one map of scalars in five is DefPorts / DefPortsBad and one map of structs in five DefLimits / DefLimitsBad - map TYPES whose InitDefaults inserts the entry \"dflt\" (valid resp. breaking the element's Validate / min tag) whenever the map's holder is unpacked, into a nil, empty or pre-filled target, with no, an empty or a set configuration naming other keys and / or \"dflt\" itself; one map of scalars in five has the key type Key (a string with Validate); one interface{} field in three sits behind a pointer (*interface{}, holding a number, a string, a pointer to struct, half of the time a pointer to Range / Pair / URange); pre-filled numbers in interface{} fields sit behind a pointer one time in three (iface(*int)); collision-free `config` names and 0-2 validators per field among required, nonzero, positive, min=N, max=N (durations: 5s or 5) that apply to the kind (one min / max in eight of a 64 bit integer field is a bound at the edge of the kind: 2^63-1, 2^63, 2^64-2, -2^63+1, 2^63-2); every second type declares, field by field, a second independent set of validators under the struct tag `" + altTag + "` next to `validate` (WithDefaults / WithBadDefaults always do); one type per " + strconv.Itoa(typeShare) + " consecutive cases. Half of the slice fields and one in eight struct / pointer-to-struct / map-of-struct fields carry a merge option in the config tag (append, prepend, replace, merge; inherited by the fields below); one slice field in five is the library type Small ([]int with its own Validate). One type in " + strconv.Itoa(topEvery) + " is a slice or map that is ITSELF the Unpack target (Unpack(&[]T{...}) / Unpack(&map[string]T{...}), configuration a list / object, no variables). Validator tag name: Unpack is called without ValidatorTag, with ValidatorTag(validate) or with ValidatorTag(" + altTag + ") (half of the cases of a two-tag type, one in eight of the others, where then no tag validator is in force at all); values, faults and oracle follow the validators declared under the name in force. In half of the cases of a two-tag type (a quarter of the others) the same type and input are first unpacked under the OTHER tag name (a sequence of two Unpack calls with different options in one process); of that first call only panics and accepted numbers outside min / max / positive or rejected by Validate() are judged. Plan: one plan in three passes AppendValues / PrependValues / ReplaceValues / ReplaceArrValues to Unpack; every position independently takes its value from the configuration (spelled as int/int64/uint64/float/string, durations as text or seconds, 1 in 6 through ${v.xN} under PathSep(.)+VarExp), from the pre-filled target, from InitDefaults, or stays zero/nil; slices mix configured, merged and untouched pre-filled elements (index by index without merge mode; separate configured and pre-filled elements under append / prepend / replace), maps mix configured, pre-filled and merged entries (under the replace policy: configured entries, pre-filled entries that are dropped as soon as one entry is configured, and pre-filled entries of non-scalar type under the SAME key as a configured one, which are dropped instead of merged); a slice or map without configured elements is absent, null, or present as an empty list / object, over a nil or a filled pre-fill (also shorter lists than the pre-fill). One configured scalar element / entry in ten is an explicit null (only where the zero value it becomes is valid, nothing pre-filled sits at the position and the collection field has no validators). Valid values are interior or exactly on a bound (bounds are inclusive); float32 / float64 / DefNaN positions also take NaN, +-Inf, -0 and subnormal numbers wherever the validators in force admit them (NaN: only without min / max / positive; -0: not under nonzero / required), as Go float, as text (NaN nan +Inf inf -Inf -infinity -0 5e-324) or through a variable, from the configuration, as pre-filled default or from InitDefaults; one min / max / positive fault in five on a float position is NaN, one nonzero fault in two is -0; one valid number in eight and one min / max / positive fault in three takes a value at the edge of the kind's range (MinInt / MaxInt of the width, +-2^7 2^8 2^31 2^32 2^53 2^63 and their neighbours, MaxUint64, +-1e18 +-1e300 1e-300, +-1e30 for float32, +-2562047h), spelled as int64 / uint64 / float / decimal string or through a variable; values against an edge bound are drawn from the neighbours of the bound and compared exactly. Base plan: Unpack must return nil and the oracle walk must be clean. Then every (position, validator, source) fault the plan admits (<= " + strconv.Itoa(maxVariants) + " per case) is injected alone: bad value from the configuration / through a variable / as pre-filled default / by leaving the field absent / by InitDefaults / as explicit null / as a pre-filled element or entry that survives the merge while the configuration gives the collection as EMPTY list or object (default+empty-config) / a `required` or `nonzero` collection given as empty list or object over a nil, an empty non-nil or (replace) a dropped pre-fill / one element of a Small too big for its Validate / an explicit null as element or entry of a type whose Validate rejects the zero value (config-null) / a non-nil EMPTY pre-filled slice or map under required / nonzero with the setting absent (pre-empty; for pointer-to-collection fields: a pointer to an empty collection) / a pre-filled pointer (also **T, iface(*T), *interface{}) to a ZERO number, an empty string or empty regular expression under required with the setting absent or an explicit null (default, default+config-null) / zero or empty from the configuration under required / the entry of a map type's InitDefaults left unrepaired by the configuration (initdefaults at the entry or at its tagged field, the rest of the map as drawn) / a configured or pre-filled entry under a key the key type's Validate rejects (config-key, default-key) / any value of a *time.Duration under a min / max in seconds no duration reaches (min=1e10, min=inf, max=-1e10), while max=1e10, max=inf, max=9223372036.854775807, min=-1e10 restrict nothing; Unpack must fail and name the field. A fault variant is executed only if the model of Unpack for these shapes agrees that exactly this position is invalid. Non-trivial = the type has at least one validator-bearing position; distinct = distinct (type, sources of all leaves, fault)."
 }
 
 func (check) Assumptions() []string {
@@ -61,7 +61,7 @@ func (check) Assumptions() []string {
 		"only clear cases are generated: bad values miss a bound by >= 0.5 (by >= 1 for integers), no nil-vs-empty collection under required/nonzero (collections under these tags are non-empty when valid, and the only collection fault is `required` with the field absent), no validator on a kind it does not apply to, no negative bound on unsigned, `required` is only ever satisfied from the configuration, a zero left in an absent non-pointer `nonzero` field is never generated (validator.go's own comment contradicts the Unpack documentation there), a pre-filled value that the configuration overwrites is itself valid",
 		"the error must contain the dotted path of the faulty field (a.b.0.c) as a delimited token: the characters next to the occurrence are no path characters (letters, digits, _ . -); wording and quoting are not looked at. Accepted as well: the path of any setting enclosing the field (a non-empty proper prefix of its path) when the fault sits inside an element of a slice/array/map, or when the fault does not come from the configuration (pre-filled default, InitDefaults, absent): there is no configuration node to name then. A path that is neither the field nor one of its enclosing settings, or no path at all, is a violation",
 		"for a cross-field Validate() of a struct the faulty 'field' is the struct value itself; for Validate() of a slice type it is the slice; a top-level slice / map target has no name of its own: an error naming no field of the type at all names it (classes: other-path = the message holds the path of another field of the type as a token, no-path otherwise)",
-		"merge modes: which pre-filled elements survive is taken from the documentation of the tag options (append / prepend: all, default: the tail beyond the configured list, replace: none); pre-filled elements under replace are no fault positions, because Unpack merges the configured elements into copies of them (not judged here); the error for a configured element must name its index in the configuration list, the walk looks at its index in the result",
+		"merge modes: which pre-filled elements survive is taken from the documentation of the tag options (append / prepend: all, default: the tail beyond the configured list, replace: none - the configured elements are unpacked into fresh values); the replace policy (ReplaceValues, a `replace` tag, also inherited; NOT ReplaceArrValues) applies to Go map targets as well: a pre-filled map that meets a NON-EMPTY configured object is exchanged - the result holds the configured entries alone (plus what InitDefaults of a map type inserts), a configured entry does not merge into the pre-filled entry of its key; an empty, null or absent setting leaves the pre-filled map as it is. Dropped pre-filled elements and entries are no fault positions; the error for a configured element must name its index in the configuration list, the walk looks at its index in the result",
 		"avoided shapes (reported by C06/C07): pre-filled map[string]struct entries touched by the configuration, nil inline pointers, inline maps NEXT TO other fields (they receive the siblings' keys, C06's open finding; an inline map is generated only as the single field of its struct), a struct by value inside interface{} merged from the configuration",
 		"audit round 4, decided from the statement: required on numbers behind pointers / interfaces, required on pointers to Unpacker numbers, Validate() behind *interface{} - inside (validators look through pointers and interfaces on every route). Duration bounds in seconds beyond the range of time.Duration - inside: min=N / max=N compare the value with N seconds as numbers, so min=1e10 is satisfied by no duration and max=1e10 by every one (text bounds that denote the largest duration only up to float64 rounding, like min=9223372036.854775807, are not generated). Cyclic pre-filled defaults - inside (all pre-filled defaults, structs nested through pointers): Unpack has to return; the ring itself holds valid values only. Map keys implementing Validate() - inside (a key of the result is a reachable value). Field tags of a struct type with an Unpack method - inside, the statement makes no exception; the error may name the struct's setting instead of the field, because which setting fills which field is the type's own business. uintptr - outside: not among the documented target kinds (bool, int*, uint8-64, float*, string, duration, regexp, Config), not generated. Error.Path() - not demanded: 'an error naming that field' is judged on the message (see the naming rule above), as C14 does",
 		"fields tagged config:\",ignore\" are NOT judged: Unpack is not responsible for them, neither their validators nor the Validate() of what they hold are looked at (they are generated with values breaking their tag, which must not make Unpack fail)",
@@ -359,6 +359,11 @@ func keepPre(c *pnode) {
 			k.dropped = false
 			k.seg = strconv.Itoa(len(kids))
 			k.rseg = k.seg
+		}
+		if c.t.k == kMap && k.dropped {
+			// without configured entries the old map is not replaced
+			k.dropped = false
+			k.seg, k.rseg = k.key, k.key
 		}
 		kids = append(kids, k)
 	}
@@ -937,6 +942,29 @@ func (check) Run(seed int64, tier string, idx int, verbose bool) harness.Result 
 		if unpackerPosition(n) {
 			res.Ev("unpacker_typed_positions", 1)
 			res.SetAdd("unpacker_position", kindNames[n.t.k]+"@"+n.shape+":"+n.source())
+		}
+		if n.t.k == kMap && n.mode == "replace" {
+			nd, twin := 0, 0
+			for _, k := range n.kids {
+				if k.dropped {
+					nd++
+					for _, o := range n.kids {
+						if o != k && o.key == k.key {
+							twin++
+						}
+					}
+				}
+			}
+			if nd > 0 {
+				res.Ev("prefilled_maps_replaced_by_configured_object", 1)
+				res.Ev("prefilled_map_entries_dropped_by_replace", int64(nd))
+				res.Ev("dropped_map_entries_with_configured_entry_of_same_key", int64(twin))
+				how := "global"
+				if n.mode != base.global {
+					how = "tag"
+				}
+				res.SetAdd("map_replaced", how+":"+kindNames[n.t.elem.k]+"-elements:"+n.shape)
+			}
 		}
 		if n.t.k == kMap {
 			if _, iv := mapInit(n.t.lib); iv != nil {
